@@ -4,7 +4,7 @@ package ratelimit
 // C20 (glue only): the listener wires each limit to its own direction, charges every transferred byte once, shares
 // the limiters between connections and passes data through unchanged.
 //
-//vf:assume C20: read and write limits are arbitrary int64 values with |x| < 2^53 (exactly representable as rate.Limit); transfer sizes symbolic 0..4
+//vf:assume C20: read and write limits are arbitrary int64 values with |x| < 2^53 (exactly representable as rate.Limit); transfer sizes symbolic 0..4; two accepted connections, the first optionally closed before the second transfers
 //vf:assume C20: rate.NewLimiter, (*rate.Limiter).WaitN and connfu.CombineWithConfig are stubbed (ledger / identity): the token-bucket bound itself (x/time/rate float arithmetic and clock) and real throughput are outside
 
 import (
@@ -41,7 +41,7 @@ func vfStubNewLimiter(r rate.Limit, b int) *rate.Limiter {
 	return l
 }
 
-var vfWaitBounded bool
+var vfWaitBounded, vfWaitCancelled bool
 
 func vfStubWaitN(l *rate.Limiter, ctx context.Context, n int) error {
 	vfCharges = append(vfCharges, vfCharge{l, n})
@@ -49,6 +49,10 @@ func vfStubWaitN(l *rate.Limiter, ctx context.Context, n int) error {
 		// WaitN gives up at once, consuming nothing, when the wait would outlast the context: a bounded wait means
 		// bytes that were already moved go unaccounted
 		vfWaitBounded = true
+	}
+	if ctx.Err() != nil {
+		// likewise a context that is already done: the wait returns an error at once and charges nothing
+		vfWaitCancelled = true
 	}
 	return nil
 }
@@ -121,7 +125,7 @@ func (l *vfRLListener) Addr() net.Addr { return nil }
 
 //vf:harness property=C20 nopanic modelonly reach=limit-read-only,limit-write-only,limit-both,limit-none
 func vfH_C20_glue() {
-	vfLimiters, vfCharges, vfWaitBounded = nil, nil, false
+	vfLimiters, vfCharges, vfWaitBounded, vfWaitCancelled = nil, nil, false, false
 	R, W := vfrt.Int64("read-limit"), vfrt.Int64("write-limit")
 	const big = int64(1) << 53
 	vfrt.Assume(R > -big)
@@ -173,6 +177,10 @@ func vfH_C20_glue() {
 	for i := 0; i < wn; i++ {
 		vfrt.Assert(c1.wrote[i] == out[i], "glue/write-data-unchanged")
 	}
+	// an earlier connection of the listener may be gone by the time a later one transfers
+	if vfrt.Choice("first-connection-closed-before-the-second-transfers", 2) == 1 {
+		a1.Close()
+	}
 	mark = len(vfCharges)
 	a2.Read(buf)
 	rx2 := vfCharges[mark:]
@@ -206,6 +214,7 @@ func vfH_C20_glue() {
 		return charges[0].l
 	}
 	vfrt.Assert(!vfWaitBounded, "glue/the-limiter-is-waited-for-without-a-time-bound")
+	vfrt.Assert(!vfWaitCancelled, "glue/the-limiter-is-never-waited-for-under-a-context-that-is-already-done")
 	lt1 := check(tx1, wn, R, "client-bound")
 	lt2 := check(tx2, 2, R, "client-bound")
 	lr1 := check(rx1, n, W, "client-sent")
